@@ -4,7 +4,7 @@
    the reverse-complement pass for backward frames (BioSeq.rc is the C05 model). No proofs here.
    Also modelled: the ORF features (type, seqid, strand, rf) of BioSeq.find_orfs / BioBasket.find_orfs (seq.py:563-568, 1058-1063)
    and FeatureList.filter(len_<op>=v) by its meaning; the specification side gives the exact result of every mode.
-   Not modelled: custom start/stop regexes, gap characters other than '-'. *)
+   Since round 7 (second half of the file): the gap option as a set of characters, custom start/stop alternations of literal words, every rf form. *)
 From Coq Require Import List ZArith NArith Bool.
 From Coq.Strings Require Import Byte.
 Import ListNotations.
@@ -294,6 +294,117 @@ Definition fmap_res (g : list feat -> list feat) (r : fresult) : fresult :=
 Definition rb (s : str) (p : nat) : nat := length (filter (fun c => negb (is_gap c)) (firstn p s)).
 Definition degap (s : str) : str := filter (fun c => negb (is_gap c)) s.
 
+(* ---- the gap option as a SET of characters, custom start/stop alternations, every rf form ------------------------------ *)
+(* find_orfs(seq, rf, start, stop, need_start, need_stop, gap, minlen) (cane.py:301): [gap] is a string used as a set of
+   characters: the regex class '[<gap>]*' (cane.py:222), 'nt in gap' (cane.py:230, 245, 291), str.rstrip(gap) (cane.py:340);
+   gap=None (no rewriting, no gap positions, 'if gap else len(data)') behaves like the empty set. The functions below are the
+   functions above with the set as a parameter; find_orfs_x g START_WORDS STOP_WORDS on a text is proved equal to find_orfs
+   on the text with every gap character rewritten to '-' (C12_gapset_transfer). *)
+Definition is_gap_g (g : str) (c : byte) : bool := existsb (byte_eqb c) g.
+
+Fixpoint mw_g (g : str) (skip : bool) (w s : str) (n : nat) {struct s} : option nat :=
+  match w with
+  | [] => Some n
+  | c :: w' =>
+      match s with
+      | [] => None
+      | x :: s' =>
+          if byte_eqb x c then mw_g g true w' s' (S n)
+          else if skip && is_gap_g g x then mw_g g true w s' (S n)
+          else None
+      end
+  end.
+Fixpoint match_any_g (g : str) (ws : list str) (s : str) : option nat :=
+  match ws with
+  | [] => None
+  | w :: r => match mw_g g false w s 0 with Some n => Some n | None => match_any_g g r s end
+  end.
+Fixpoint finditer_g (g : str) (ws : list str) (s : str) (pos skip : nat) {struct s} : list (nat * nat) :=
+  match s with
+  | [] => []
+  | _ :: s' =>
+      match skip with
+      | S k => finditer_g g ws s' (S pos) k
+      | O =>
+          match match_any_g g ws s with
+          | Some len => (pos, (pos + len)%nat) :: finditer_g g ws s' (S pos) (Nat.pred len)
+          | None => finditer_g g ws s' (S pos) O
+          end
+      end
+  end.
+Definition gaps_before_g (g : str) (s : str) (i : nat) : nat := length (filter (is_gap_g g) (firstn i s)).
+Definition frame_of_g (g : str) (s : str) (i : nat) : Z := (Z.of_nat i - Z.of_nat (gaps_before_g g s i)) mod 3.
+Definition hits_g (g : str) (ws : list str) (s : str) (frame : Z) : list (nat * nat) :=
+  let t := strand_str s frame in
+  filter (fun m => frame_of_g g t (fst m) =? frame_key frame) (finditer_g g ws t 0 0).
+Fixpoint frame_start_from_g (g : str) (data : str) (k i : nat) : nat :=
+  match data with
+  | [] => i
+  | c :: r => if is_gap_g g c then frame_start_from_g g r k (S i)
+              else match k with O => i | S k' => frame_start_from_g g r k' (S i) end
+  end.
+Definition frame_start_g (g : str) (data : str) (frame : Z) : nat :=
+  frame_start_from_g g data (Z.to_nat (if frame >=? 0 then frame else - frame - 1)) 0.
+Fixpoint last_res_g (g : str) (data : str) : nat :=
+  match data with
+  | [] => O
+  | c :: r => match last_res_g g r with O => if is_gap_g g c then O else 1%nat | S n => S (S n) end
+  end.
+Definition starts_x (g : str) (sw : list str) (s : str) (frame : Z) : list Z := map (fun m => Z.of_nat (fst m)) (hits_g g sw s frame).
+Definition stops_x (g : str) (pw : list str) (s : str) (frame : Z) : list Z := map (fun m => Z.of_nat (snd m)) (hits_g g pw s frame).
+Definition frame_orfs_x (g : str) (sw pw : list str) (ns : nstart) (need_stop : bool) (minlen : Z) (s : str) (frame : Z) : result :=
+  let starts := starts_x g sw s frame in
+  let stops := stops_x g pw s frame in
+  let data := strand_data s frame in
+  frame_loop (length starts + length stops + 1) ns need_stop minlen (Z.of_nat (length s)) frame
+             (Z.of_nat (frame_start_g g data frame)) (Z.of_nat (last_res_g g data)) starts stops None.
+Fixpoint orfs_frames_x (g : str) (sw pw : list str) (ns : nstart) (need_stop : bool) (minlen : Z) (s : str) (frames : list Z) : result :=
+  match frames with
+  | [] => ROk []
+  | f :: r => app_res (frame_orfs_x g sw pw ns need_stop minlen s f) (orfs_frames_x g sw pw ns need_stop minlen s r)
+  end.
+Definition find_orfs_x (g : str) (sw pw : list str) (rf : rfspec) (ns : nstart) (need_stop : bool) (minlen : Z) (s : str) : result :=
+  orfs_frames_x g sw pw ns need_stop minlen s (frames_of rf).
+
+(* start= / stop= (cane.py:216-221): the names 'start' and 'stop' stand for the default alternations, any other text is the
+   regex itself; modelled for alternations of literal words 'W1|W2|...' (custom codon sets) *)
+Fixpoint split_bar (t : str) : list str :=
+  match t with
+  | [] => [[]]
+  | c :: r => if byte_eqb c "|"%byte then [] :: split_bar r
+              else match split_bar r with w :: ws => (c :: w) :: ws | [] => [[c]] end
+  end.
+Definition pat_words (t : str) : list str :=
+  if str_eqb t (bs "start"%bs) then START_WORDS else if str_eqb t (bs "stop"%bs) then STOP_WORDS else split_bar t.
+
+(* every form of rf: the three names and ints / tuples of ints (rfspec; frames outside -3..2 find no codon, cane.py:236-238,
+   and read the strand from their k-th residue); another string fails the assertion of match() (cane.py:205); one numpy
+   integer or float (not an int instance) and None are not iterable: TypeError (set(rf) cane.py:236 / for frame in rf) *)
+Inductive rfany := RAspec (r : rfspec) | RAnpint (z : Z) | RAfloat | RAnone | RAbadstr.
+Inductive xresult := XOk (l : list orf) | XErr (e : str).
+Definition xres (r : result) : xresult :=
+  match r with ROk l => XOk l | RAssert => XErr (bs "AssertionError"%bs) | RFuel => XErr (bs "OutOfFuel"%bs) end.
+Definition gap_set (gap : option str) : str := match gap with Some g => g | None => [] end.
+Definition find_orfs_any (gap : option str) (start stop : str) (rf : rfany) (ns : nstart) (need_stop : bool) (minlen : Z) (s : str) : xresult :=
+  match rf with
+  | RAbadstr => XErr (bs "AssertionError"%bs)
+  | RAnpint _ | RAfloat | RAnone => XErr (bs "TypeError"%bs)
+  | RAspec r => xres (find_orfs_x (gap_set gap) (pat_words start) (pat_words stop) r ns need_stop minlen s)
+  end.
+
+(* specification side: is_orf s f a e -- on the strand read in frame f, (a, e) is an open reading frame of the default
+   settings: a is the column of an in-frame start codon, e the end column of an in-frame stop codon after it, no in-frame
+   stop ends in between, and every earlier in-frame start is cut off by an in-frame stop (a is the FIRST start since the
+   previous stop) *)
+Definition is_orf_x (g : str) (sw pw : list str) (s : str) (f : Z) (a e : Z) : Prop :=
+  In a (starts_x g sw s f) /\ In e (stops_x g pw s f) /\ a < e /\
+  (forall e', In e' (stops_x g pw s f) -> e' < e -> e' <= a) /\
+  (forall a', In a' (starts_x g sw s f) -> a' < a -> exists e', In e' (stops_x g pw s f) /\ a' < e' /\ e' <= a).
+Definition is_orf (s : str) (f : Z) (a e : Z) : Prop :=
+  In a (frame_starts s f) /\ In e (frame_stops s f) /\ a < e /\
+  (forall e', In e' (frame_stops s f) -> e' < e -> e' <= a) /\
+  (forall a', In a' (frame_starts s f) -> a' < a -> exists e', In e' (frame_stops s f) /\ a' < e' /\ e' <= a).
+
 (* ---- domain ---------------------------------------------------------------------------------------------------- *)
 (* lower-case letters (soft-masked residues; reachable only by in-place edits, the constructor upper-cases) are residues
    that belong to no codon: the codon words are upper case, str.translate leaves them alone *)
@@ -338,3 +449,25 @@ Definition run_C12_basket (ftype : str) (rf : rfspec) (ns : N) (need_stop : bool
   let r := basket_find_orfs ftype rf (ns_of_N ns) need_stop minlen seqs in
   VL [VB (wf_C12_basket rf (ns_of_N ns) need_stop minlen seqs);
       val_of_fresult (match flt with Some (op, v) => fmap_res (filter_len (lenop_of_N op) v) r | None => r end)].
+
+(* ---- entry point for the gap set / custom codon sets / every rf form ------------------------------------------------- *)
+Definition GAP_SAFE : str := bs ".-_~*N"%bs.
+Definition is_alpha (c : byte) : bool :=
+  let n := Byte.to_N c in ((65 <=? n) && (n <=? 90) || (97 <=? n) && (n <=? 122))%N.
+(* the gap string is a regex class body: '-' only first or last (no ranges), every character its own complement *)
+Definition dash_edge (g : str) : bool :=
+  match g with [] => true | _ :: r => negb (existsb (byte_eqb "-"%byte) (removelast r)) end.
+Definition gap_ok (gap : option str) : bool :=
+  match gap with None => true | Some g => negb (is_nil g) && forallb (fun c => existsb (byte_eqb c) GAP_SAFE) g && dash_edge g end.
+Definition word_ok (g : str) (w : str) : bool := negb (is_nil w) && forallb (fun c => is_alpha c && negb (is_gap_g g c)) w.
+Definition words_ok (g : str) (ws : list str) : bool := forallb (word_ok g) ws.
+Definition in_nt_x (c : byte) : bool := existsb (byte_eqb c) (bs "ACGTUN-._~*acgtun"%bs).
+Definition wf_C12x (gap : option str) (start stop : str) (rf : rfany) (ns : nstart) (need_stop : bool) (minlen : Z) (s : str) : bool :=
+  gap_ok gap && words_ok (gap_set gap) (pat_words start) && words_ok (gap_set gap) (pat_words stop) &&
+  forallb in_nt_x s && (0 <=? minlen) &&
+  match rf with RAspec r => nodupz (frames_of r) | _ => true end.
+Definition val_of_xresult (r : xresult) : val :=
+  match r with XOk l => VL (map val_of_orf l) | XErr e => VE e end.
+Definition run_C12x (gap : option str) (start stop : str) (rf : rfany) (ns : N) (need_stop : bool) (minlen : Z) (s : str) : val :=
+  VL [VB (wf_C12x gap start stop rf (ns_of_N ns) need_stop minlen s);
+      val_of_xresult (find_orfs_any gap start stop rf (ns_of_N ns) need_stop minlen s)].
